@@ -4,7 +4,7 @@ From Coq Require Import NArith ZArith List Bool.
 From Coq.Strings Require Import Byte.
 From LOF Require Import Base.Bytes Base.Res Model.Wire Model.Build Model.Parse Spec.Walk Proofs.ParseRtP
   Proofs.WalkAllP Proofs.WalkMsgP Proofs.ParseRtAllP Proofs.ParseRtAll3P Proofs.ParseRtAll4P Proofs.ParseRtAll6P Proofs.ParseRtAll7P
-  Model.BuildSw Proofs.NormP Proofs.ParseSwAll2P Proofs.ParseSwAll3P Proofs.ParseSwRtP.
+  Model.BuildSw Proofs.NormP Proofs.ParseSwAll2P Proofs.ParseSwAll3P Proofs.ParseSwRtP Proofs.HelloBaseP Proofs.HelloP.
 Import ListNotations.
 Open Scope N_scope.
 
@@ -93,3 +93,12 @@ Theorem C05_flow_statistics_roundtrip : forall fl recs xid, sw_ok (SMpFlow fl re
   fst (marshal (sw_view xid (SMpFlow fl recs))) = wire (sw_tree xid (SMpFlow fl recs)).
 Proof. exact sw_flowstats_roundtrip. Qed.
 Print Assumptions C05_flow_statistics_roundtrip.
+
+(* ---- hello with any list of version-bitmap elements ([hello_tree xid es]: the elements and
+   their bitmaps are exported fields, so a controller can build any such list): each element is
+   padded to 64 bits and its length field counts header and bitmaps (fix D46) ---- *)
+Theorem C05_hello_roundtrip : forall xid es, bitmaps_ok es = true -> xid < 4294967296 ->
+  let bytes := fst (marshal (hello_tree xid es)) in
+  parse_top bytes = Ok (snd (marshal (hello_tree xid es))) /\ fst (marshal (snd (marshal (hello_tree xid es)))) = bytes.
+Proof. exact hello_roundtrip. Qed.
+Print Assumptions C05_hello_roundtrip.
